@@ -340,4 +340,8 @@ impl Checksum {
       edits=[('src/cedt.rs', "        Self {\n            base_addr,\n            size,\n            interleave_arithmetic: arithmetic,", "        Self {\n            base_addr: size,\n            size: base_addr,\n            interleave_arithmetic: arithmetic,")]),
  dict(prop='C04', name='IdMapping::new exchanges source and destination id', expect='rimt::IdMapping::new',
       edits=[('src/rimt.rs', "        Self {\n            src_id,\n            dst_id,\n            num_ids,", "        Self {\n            src_id: dst_id,\n            dst_id: src_id,\n            num_ids,")]),
+ dict(prop='C03', name='GenericErrorData::add_data forgets the data', expect='hest::GenericErrorData::add_data',
+      edits=[('src/hest.rs', "    pub fn add_data(&mut self, data: Box<dyn Aml>) {\n        self.data.push(data);", "    pub fn add_data(&mut self, data: Box<dyn Aml>) {\n        let _ = data;")]),
+ dict(prop='C03', name='add_xormap pushes the complement of the map', expect='cedt::XorInterleaveMath::add_xormap',
+      edits=[('src/cedt.rs', "        self.bitmaps.push(xormap);", "        self.bitmaps.push(!xormap);")]),
 ]
